@@ -61,6 +61,7 @@ def concretise(ab, sec):
     w, h = sec["size"]
     lo, le, co, ce = sec["range"]
     vp = VideoParameters(base["video_parameters"], frame_width=w, frame_height=h, clean_width=w, clean_height=h, color_diff_format_index=ColorDifferenceSamplingFormats(sec["cdf"]), luma_offset=lo, luma_excursion=le, color_diff_offset=co, color_diff_excursion=ce)
+    vp = apply_source_variant(vp, sec.get("source"))
     kw = dict(
         profile=Profiles.high_quality if ab["profile"] == "hq" else Profiles.low_delay,
         picture_coding_mode=PictureCodingModes.pictures_are_fields if ab["fields"] else PictureCodingModes.pictures_are_frames,
@@ -79,6 +80,34 @@ def concretise(ab, sec):
     else:
         kw.update(lossless=False, picture_bytes=sec["picture_bytes"])
     return CodecFeatures(base, **kw)
+
+
+def source_variant(rnd):
+    """seeded choice of source parameters the catalogue does not depend on: frame rate / pixel aspect ratio as
+    presets, custom values in lowest terms and custom values NOT in lowest terms (legal: the numbers are what the
+    format says), and colour descriptions that agree with a preset in some components only"""
+    return {
+        "frame_rate": rnd.choice([None, None, (25, 1), (50, 2), (120000, 2002), (37, 3), (30000, 1001)]),
+        "par": rnd.choice([None, None, (1, 1), (2, 2), (20, 22), (59, 54)]),
+        "colour": rnd.choice([None, None, ("hdtv", "rgb", "tv_gamma"), ("sdtv_625", "sdtv", "tv_gamma"), ("hdtv", "hdtv", "tv_gamma"), ("sdtv_525", "hdtv", "tv_gamma")]),
+    }
+
+
+def apply_source_variant(vp, sv):
+    from vc2_data_tables import PresetColorPrimaries, PresetColorMatrices, PresetTransferFunctions
+
+    if not sv:
+        return vp
+    if sv.get("frame_rate"):
+        vp["frame_rate_numer"], vp["frame_rate_denom"] = sv["frame_rate"]
+    if sv.get("par"):
+        vp["pixel_aspect_ratio_numer"], vp["pixel_aspect_ratio_denom"] = sv["par"]
+    if sv.get("colour"):
+        p, m, t = sv["colour"]
+        vp["color_primaries_index"] = getattr(PresetColorPrimaries, p)
+        vp["color_matrix_index"] = getattr(PresetColorMatrices, m)
+        vp["transfer_function_index"] = getattr(PresetTransferFunctions, t)
+    return vp
 
 
 def secondary(rnd, plain=False):
@@ -116,6 +145,7 @@ def secondary(rnd, plain=False):
         # also budgets that are NOT a multiple of the slice count: slices of unequal size (13.5.3.2 / 13.5.4)
         "picture_bytes": nsl * rnd.choice([12, 16, 24, 40]) + rnd.choice([0, 0, 1, nsl - 1, nsl // 2 + 1]),
         "qm": qm,
+        "source": source_variant(rnd),
     }
 
 
@@ -203,6 +233,7 @@ def grid_secondary(ab, rng, rnd):
         "slices": slices,
         "picture_bytes": nsl * per_slice + rnd.choice([0, 0, 1, nsl - 1]),
         "qm": None if ab["qm"] == "default" else custom_matrix(rnd, depth, depth_ho),
+        "source": source_variant(rnd),
     }
 
 
